@@ -52,6 +52,8 @@ type selWait struct {
 }
 
 type Timer struct {
+	deadline int64 // virtual time (ns) at which it fires
+	period   int64
 	id       int
 	ch       *ChanV
 	active   bool
@@ -67,6 +69,9 @@ type lockState struct {
 }
 
 type Scheduler struct {
+	vnow        int64 // virtual clock: advances only when every goroutine is blocked
+	delays      int
+	maxDelays   int // -1 = unbounded
 	preemptions int
 	maxPreempt  int
 	timerFires  int
@@ -91,7 +96,7 @@ func shortFn(s string) string {
 }
 
 func (ex *Exec) initSched() {
-	ex.sched = &Scheduler{maxPreempt: ex.h.Preempt, maxTimers: ex.h.Timers, abortAck: make(chan struct{})}
+	ex.sched = &Scheduler{maxPreempt: ex.h.Preempt, maxTimers: ex.h.Timers, maxDelays: ex.h.Delays, abortAck: make(chan struct{})}
 	main := &Goroutine{id: 0, resume: make(chan struct{}), started: true, fnName: "main"}
 	ex.gs = []*Goroutine{main}
 	ex.curG = main
@@ -213,24 +218,46 @@ func (ex *Exec) yield(what string) {
 			others = append(others, g)
 		}
 	}
-	timers := ex.activeTimers()
-	nT := 0
-	if ex.sched.timerFires < ex.sched.maxTimers {
-		nT = len(timers)
-	}
-	if len(others) == 0 && nT == 0 {
+	// time passes only when every goroutine is blocked (maximal progress): timers do not fire here
+	if len(others) == 0 {
 		return
 	}
-	k := ex.choose(1 + len(others) + nT)
+	k := ex.choose(1 + len(others))
 	if k == 0 {
 		return
 	}
 	ex.sched.preemptions++
-	if k <= len(others) {
-		ex.transfer(cur, others[k-1])
-		return
+	ex.transfer(cur, others[k-1])
+}
+
+// schedChoose picks one of n scheduling alternatives. Alternative 0 is the
+// default of the deterministic scheduler (round robin / first ready case); any
+// other alternative costs one unit of the delay budget (delay-bounded
+// scheduling); with the budget used up the default is taken.
+func (ex *Exec) schedChoose(n int) int {
+	if n <= 1 {
+		return 0
 	}
-	ex.fireTimer(timers[k-1-len(others)])
+	if ex.sched.maxDelays >= 0 && ex.sched.delays >= ex.sched.maxDelays {
+		return 0
+	}
+	k := ex.choose(n)
+	if k > 0 {
+		ex.sched.delays++
+	}
+	return k
+}
+
+// rotate orders candidates round robin after the current goroutine.
+func rotate(cands []*Goroutine, cur *Goroutine) []*Goroutine {
+	if cur == nil || len(cands) < 2 {
+		return cands
+	}
+	i := 0
+	for i < len(cands) && cands[i].id <= cur.id {
+		i++
+	}
+	return append(append([]*Goroutine{}, cands[i:]...), cands[:i]...)
 }
 
 // yieldFree is an explicit scheduling point of the harness: any enabled
@@ -249,7 +276,8 @@ func (ex *Exec) yieldFree(what string) {
 	if len(others) == 0 {
 		return
 	}
-	k := ex.choose(1 + len(others))
+	others = rotate(others, cur)
+	k := ex.schedChoose(1 + len(others))
 	if k == 0 {
 		return
 	}
@@ -268,10 +296,14 @@ func (ex *Exec) switchAway(cur *Goroutine, exiting bool) {
 			}
 		}
 		// the current goroutine may have become ready again (e.g. timer fired)
+		// maximal progress: a timer fires only when nothing else can run
 		timers := ex.activeTimers()
 		nT := 0
-		if len(cands) == 0 || ex.sched.timerFires < ex.sched.maxTimers {
+		if len(cands) == 0 {
 			nT = len(timers)
+			if ex.sched.maxTimers > 0 && ex.sched.timerFires >= ex.sched.maxTimers {
+				panic(budgetExceeded{"timer firing budget"})
+			}
 		}
 		if len(cands) == 0 && nT == 0 {
 			if exiting && cur.id != 0 {
@@ -280,7 +312,20 @@ func (ex *Exec) switchAway(cur *Goroutine, exiting bool) {
 			}
 			ex.deadlock()
 		}
-		k := ex.choose(len(cands) + nT)
+		cands = rotate(cands, cur)
+		var k int
+		if len(cands) > 0 {
+			k = ex.schedChoose(len(cands))
+		} else {
+			// discrete-event time: the timer with the earliest deadline fires
+			k = 0
+			for i, t := range timers {
+				if t.deadline < timers[k].deadline {
+					k = i
+				}
+			}
+			ex.sched.vnow = timers[k].deadline
+		}
 		if k < len(cands) {
 			next := cands[k]
 			if next == cur {
@@ -373,12 +418,18 @@ func (ex *Exec) killGoroutines() []string {
 
 // ---------- timers ----------
 
-func (ex *Exec) newTimer(periodic bool, fn Value) *Timer {
+func (ex *Exec) newTimer(periodic bool, fn Value, dur Value) *Timer {
 	if ex.sched == nil {
 		panic(unsupported{"timer without scheduler"})
 	}
+	d := int64(0)
+	if dt, ok := dur.(*T); ok {
+		if k, isC := dt.ConstS(); isC && k > 0 {
+			d = k
+		}
+	}
 	ex.sched.nextTimer++
-	t := &Timer{id: ex.sched.nextTimer, active: true, periodic: periodic, fn: fn}
+	t := &Timer{id: ex.sched.nextTimer, active: true, periodic: periodic, fn: fn, deadline: ex.sched.vnow + d, period: d}
 	if fn == nil {
 		t.ch = ex.newChan(1, ex.timeType())
 		t.ch.timer = t
@@ -397,6 +448,8 @@ func (ex *Exec) fireTimer(t *Timer) {
 	t.fired++
 	if !t.periodic {
 		t.active = false
+	} else {
+		t.deadline += t.period
 	}
 	if t.fn != nil {
 		fn := t.fn
@@ -408,9 +461,18 @@ func (ex *Exec) fireTimer(t *Timer) {
 	}
 }
 
-// yieldTimer models time.Sleep: other goroutines and timers may run.
+// yieldTimer is kept for callers without a duration.
 func (ex *Exec) yieldTimer() {
 	ex.yield("sleep")
+}
+
+// sleep blocks the goroutine until virtual time has advanced by d.
+func (ex *Exec) sleep(d Value) {
+	if ex.sched == nil || ex.initMode > 0 {
+		return
+	}
+	t := ex.newTimer(false, nil, d)
+	ex.selectGeneric([]selCase{{ch: t.ch}}, false, "sleep")
 }
 
 // ---------- channels ----------
@@ -535,7 +597,7 @@ func (ex *Exec) selectGeneric(cases []selCase, hasDefault bool, what string) (in
 	if len(ready) > 0 {
 		k := 0
 		if len(ready) > 1 {
-			k = ex.choose(len(ready))
+			k = ex.schedChoose(len(ready))
 		}
 		i := ready[k]
 		v, ok := ex.perform(cases[i])
@@ -890,10 +952,10 @@ func registerSyncIntrinsics() {
 
 	// timers
 	intrinsics["time.After"] = func(ex *Exec, fr *frame, fn *ssa.Function, args []Value) Value {
-		return ex.newTimer(false, nil).ch
+		return ex.newTimer(false, nil, args[0]).ch
 	}
 	intrinsics["time.Tick"] = func(ex *Exec, fr *frame, fn *ssa.Function, args []Value) Value {
-		return ex.newTimer(true, nil).ch
+		return ex.newTimer(true, nil, args[0]).ch
 	}
 	mkTimerStruct := func(ex *Exec, t *Timer, typ types.Type) Value {
 		// *time.Timer / *time.Ticker : struct{C <-chan Time; ...}; we keep the
@@ -906,13 +968,13 @@ func registerSyncIntrinsics() {
 		return p
 	}
 	intrinsics["time.NewTimer"] = func(ex *Exec, fr *frame, fn *ssa.Function, args []Value) Value {
-		return mkTimerStruct(ex, ex.newTimer(false, nil), fn.Signature.Results().At(0).Type())
+		return mkTimerStruct(ex, ex.newTimer(false, nil, args[0]), fn.Signature.Results().At(0).Type())
 	}
 	intrinsics["time.NewTicker"] = func(ex *Exec, fr *frame, fn *ssa.Function, args []Value) Value {
-		return mkTimerStruct(ex, ex.newTimer(true, nil), fn.Signature.Results().At(0).Type())
+		return mkTimerStruct(ex, ex.newTimer(true, nil, args[0]), fn.Signature.Results().At(0).Type())
 	}
 	intrinsics["time.AfterFunc"] = func(ex *Exec, fr *frame, fn *ssa.Function, args []Value) Value {
-		t := ex.newTimer(false, args[1])
+		t := ex.newTimer(false, args[1], args[0])
 		p := new(Value)
 		*p = ex.zero(deref(fn.Signature.Results().At(0).Type()))
 		ex.timerOf[p] = t
@@ -940,6 +1002,11 @@ func registerSyncIntrinsics() {
 		if t != nil {
 			was = t.active
 			t.active = true
+			if dt, ok := args[1].(*T); ok {
+				if k, isC := dt.ConstS(); isC && k > 0 {
+					t.deadline, t.period = ex.sched.vnow+k, k
+				}
+			}
 		}
 		if fn.Signature.Results().Len() == 1 {
 			return ex.c.Bool(was)
